@@ -343,7 +343,7 @@ func Harness_C20_shared_ssh() {
 		go func() {
 			defer wg.Done()
 			<-start
-			for k := 0; k < 10; k++ {
+			for k := 0; k < 40; k++ {
 				if !useSharedSSH(r, id, fileKey) || !useSharedSSH(rr, rid, fileKey) {
 					mu.Lock()
 					bad++
